@@ -24,5 +24,6 @@ def run(F, rep):
     rep.run(dt_seq.slice_view_tables, F, rep, "C13.6")
     rep.run(dt_seq.kmer_default_tables, F, rep, "C13.5")
     rep.run(lemmas.byte_container_lemmas, F, rep, "L-bytes")
+    rep.run(lemmas.kmer_iter_e2e_lemmas, F, rep, "L-iter")
     for ty in common.kmer_type_names(F):
         rep.run(lemmas.kmer_default_lemmas, F, rep, ty, which={"from_bytes", "from_ascii", "bulk"}, rule="L-default")
